@@ -8,7 +8,7 @@ from vf.engine import terms as T
 from vf.engine.values import (Sym, SArr, SObj, Opaque, Builtin, BoundMethod, FuncVal, PartialVal, ClassRef, wrap, term_of, is_scalar, PyRaise)
 from vf.engine.vc import Unsupported
 from vf.contract import Contract, contract
-from ._util import real, integer, sym_array, fresh_index
+from ._util import real, integer, sym_array, fresh_index, same_data
 from ._objects import UserFunc, DepFn
 
 FT = "virocon._fitting."
@@ -146,7 +146,7 @@ class FitFunction(Contract):
         if not ok:
             return
         _, a, k = self.rec.calls[0]
-        cx.oblige("post.forwarding.func_x_y_p0", len(a) >= 4 and a[0] is self.func and a[1] is self.x and a[2] is self.y and a[3] is self.p0, "post",
+        cx.oblige("post.forwarding.func_x_y_p0", len(a) >= 4 and a[0] is self.func and same_data(cx, a[1], self.x) and same_data(cx, a[2], self.y) and same_data(cx, a[3], self.p0), "post",
                   "the optimiser gets the function itself, the support points and the start values in order")
         if case["bounds"] == "given":
             cx.oblige("post.forwarding.bounds", k.get("bounds") is self.conv_out and self.conv_in is self.bounds, "post", "declared bounds are converted and forwarded")
@@ -201,7 +201,7 @@ class FitConstrained(Contract):
             cx.oblige("post.failure_raises", T.land(out.exc == "RuntimeError", T.lnot(success)), "post", "RuntimeError only when the optimiser reports failure")
             return
         cx.oblige("post.success", success, "post")
-        cx.oblige("post.forwarding.p0", len(a) >= 2 and a[1] is self.p0, "post", "start values forwarded")
+        cx.oblige("post.forwarding.p0", len(a) >= 2 and same_data(cx, a[1], self.p0), "post", "start values forwarded")
         cx.oblige("post.forwarding.bounds", k.get("bounds") is self.bounds, "post", "declared bounds forwarded")
         want = self.cons if self.cons is not None else None
         got = k.get("constraints", "ABSENT")
@@ -424,7 +424,7 @@ class DepFit(Contract):
         for nm, v in zip(names, a):
             b[nm] = v
         b.update(k)
-        cx.oblige("post.forwarding.func_x_y", b.get("func") is self.obj and b.get("x") is self.x and b.get("y") is self.y, "post")
+        cx.oblige("post.forwarding.func_x_y", b.get("func") is self.obj and same_data(cx, b.get("x"), self.x) and same_data(cx, b.get("y"), self.y), "post")
         p0 = b.get("p0")
         cx.oblige("post.forwarding.p0", isinstance(p0, tuple) and len(p0) == 3 and all(u is v for u, v in zip(p0, self.p0.values())), "post", "start values = current parameters in order")
         cx.oblige("post.forwarding.bounds", b.get("bounds") is self.bounds, "post")
@@ -542,7 +542,7 @@ class DepProtocol(Contract):
                 continue
             ev = self.events[last[name]]
             cx.oblige(f"post.final_parameters.{name}", list(o.fields["parameters"].values()) == list(ev[4]), "post", "final parameters are those of its last fit")
-            cx.oblige(f"post.latest_data.{name}", ev[2] is self.data[name][0] and ev[3] is self.data[name][1], "post", "the last fit used the data of the latest fit call")
+            cx.oblige(f"post.latest_data.{name}", same_data(cx, ev[2], self.data[name][0]) and same_data(cx, ev[3], self.data[name][1]), "post", "the last fit used the data of the latest fit call")
             for j, dname in enumerate(decl[name]):
                 d = self.objs[dname]
                 cx.oblige(f"post.after_conditioner.{name}.{dname}", dname in last and last[name] > last[dname], "post",
